@@ -274,7 +274,14 @@ def boundary_ints(rng, ps, count):
 
 
 def gen_residues(rng, ps, allow_out_of_range_tail=False):
-    mode = rng.below(10)
+    mode = rng.below(11)
+    if mode == 10:                                           # sparse mixed-radix digits: zero corrections in the middle of the conversion
+        v, part = 0, 1
+        for p in ps:
+            d = rng.choice([0, 0, 0, 1, p - 1, rng.below(p)])
+            v += d * part
+            part *= p
+        return [v % p for p in ps]
     if mode >= 8:                                            # residues of a boundary integer (value 0, p_i, prod-1, ...)
         v = boundary_ints(rng, ps, 1 + rng.below(6))[-1]
         return [v % p for p in ps]
@@ -569,6 +576,14 @@ def main(tier, replay=None):
             rs = [rng.choice([0, 1, p - 1, rng.below(p)]) for _ in pts]
             if rng.chance(1, 8):
                 rs = [rs[0]] * n                  # constant polynomial: all higher coefficients vanish
+            elif rng.chance(1, 4) and n >= 3:
+                # values of a polynomial of low degree on the first m points (zero Newton corrections there), anything afterwards
+                k = rng.range(1, n - 2)
+                g = [rng.below(p) for _ in range(k)]
+                m = rng.range(k + 1, n - 1)
+                rs = [peval(p, g, x) for x in pts[:m]] + [rng.below(p) for _ in pts[m:]]
+                if rng.chance(1, 2):
+                    rs[m:] = [(peval(p, g, x) + 1) % p for x in pts[m:]]
             d = rng.range(0, 2 * n)
             cs = [rng.below(p) for _ in range(d + 1)]
             kb = rng.below(8)
